@@ -14,6 +14,8 @@ import Model.Proto.Mesh
 import Model.Proto.Surveyor
 import Model.Proto.Req
 import Model.Core
+import Model.Ledger
+import Model.Bytes
 import Generated.Facts
 open Model Model.Proto
 namespace Driver.Machines
@@ -39,7 +41,44 @@ def advanceS {σ : Type} [BEq σ] (cs : List σ) (stp : σ → List String → L
   let rendered := (outs.map (·.2)).foldl (fun acc s => if acc.contains s then acc else acc ++ [s]) []
   (dedup.take 64, if outs.isEmpty then "<operation not enabled in the model>" else " | ".intercalate rendered)
 
+/-- the message ledger behind the line protocol: ids as the harness numbers buffers (first sight of a pointer) -/
+def ledgerContents (s : Ledger.State) : String :=
+  let live := s.msgs.filter (fun x => !x.pooled)
+  if live.isEmpty then "-" else
+  ",".intercalate (live.map (fun x => s!"{x.id}:{x.refcnt}:{toHexD (x.body.map (fun n => UInt8.ofNat n))}"))
+
+def ledgerStep (s : Ledger.State) (op : List String) : List (Ledger.State × String) :=
+  let nat (x : String) : Nat := x.toNat?.getD 0
+  let reuse (x : String) : Option Nat := if x == "-" then none else x.toNat?
+  match op with
+  | ["newmsg", o, _, r] =>
+    let (s', res) := Ledger.step s (.new (nat o) (reuse r))
+    match res with
+    | some id => [(s', s!"id:{id} empty:true {ledgerContents s'}")]
+    | none => [(s', "refused:" ++ (s'.bad.getLast?.getD ""))]
+  | ["clone", o, o2, m] =>
+    let (s', res) := Ledger.step s (.clone (nat o) (nat o2) (nat m))
+    [(s', if res.isSome then ledgerContents s' else "refused:" ++ (s'.bad.getLast?.getD ""))]
+  | ["free", o, m] =>
+    let before := s.bad.length
+    let (s', _) := Ledger.step s (.free (nat o) (nat m))
+    [(s', if s'.bad.length == before then ledgerContents s' else "refused:" ++ (s'.bad.getLast?.getD ""))]
+  | ["unique", o, m, r] =>
+    let (s', res) := Ledger.step s (.makeUnique (nat o) (nat m) (reuse r))
+    match res with
+    | some id => [(s', s!"same:{decide (id = nat m)} {ledgerContents s'}")]
+    | none => [(s', "refused:" ++ (s'.bad.getLast?.getD ""))]
+  | ["write", o, m, b] =>
+    let before := s.bad.length
+    let body := ((ofHex b).getD []).map (·.toNat)
+    let (s', _) := Ledger.step s (.write (nat o) (nat m) body)
+    [(s', if s'.bad.length == before then ledgerContents s' else "refused:" ++ (s'.bad.getLast?.getD ""))]
+  | _ => []
+
+instance : BEq Ledger.State := ⟨fun a b => a.msgs == b.msgs && a.next == b.next && a.bad == b.bad⟩
+
 structure State where
+  ledger : List Ledger.State := [{}]
   sub : List Sub.State := [Sub.init]
   pub : List Pub.State := [Pub.init]
   pair : List Pair.State := [Pair.init]
@@ -65,6 +104,7 @@ def step (s : State) (tag : String) (args : List String) (o : String) : Option (
     | "m.surv" => some ({ s with surv := [Surveyor.init], stuck := false }, true, "-", "new")
     | "m.req" => some ({ s with req := [Req.init], stuck := false }, true, "-", "new")
     | "m.core" => some ({ s with core := [Core.init], stuck := false }, true, "-", "new")
+    | "m.ledger" => some ({ s with ledger := [{}], stuck := false }, true, "-", "new")
     | "m.mesh" =>
       let f := match args.getD 1 "" with
         | "bus" => Mesh.Flavor.bus
@@ -109,6 +149,9 @@ def step (s : State) (tag : String) (args : List String) (o : String) : Option (
   | "m.req" =>
     let (cs, exp) := advance s.req Req.step args o
     if cs.isEmpty then some ({ s with stuck := true }, false, exp, opName) else some ({ s with req := cs }, true, o, opName)
+  | "m.ledger" =>
+    let (cs, exp) := advanceS s.ledger ledgerStep args o
+    if cs.isEmpty then some ({ s with stuck := true }, false, exp, opName) else some ({ s with ledger := cs }, true, o, opName)
   | "m.core" =>
     let (cs, exp) := advanceS s.core Core.step args o
     if cs.isEmpty then some ({ s with stuck := true }, false, exp, opName) else some ({ s with core := cs }, true, o, opName)
